@@ -270,7 +270,7 @@ class Ctx:
             if b.startswith("Closed"):
                 theorems.append((nm, "closed"))
             else:
-                axs = re.findall(r"^([A-Za-z0-9_.']+)\s*:", b, re.M)
+                axs = [a for a in re.findall(r"^([A-Za-z0-9_.']+)\s*:", b, re.M) if a != "Axioms"]
                 theorems.append((nm, axs))
                 for a in axs:
                     if a not in STDLIB_AXIOMS and a not in allowed:
